@@ -1,5 +1,9 @@
-"""C03 (second part): the look-up sites in create_dzn_elements - added with the builder-level contracts."""
+"""C03 (second part): the look-up sites in create_dzn_elements, on the generator harness: every exposed port gets the
+semantics that specs/port_selection.sem assigns (accessor type Sts/Mts, boundary member), an uncovered exposed port
+or an unknown configured name is rejected with AdvShellError and no file, injected requires ports are never
+exposed and never need a semantics."""
+from props import gen_props
 
 
 def run(ctx, e):
-    return
+    gen_props.run_property(ctx, 'C03')
